@@ -101,7 +101,7 @@ def unit(*shape):
 
 
 def small(*shape):
-    return P(shape, lambda g: u(0.01, 0.3)(g, shape), [("zero", _const(shape, 0.0))])
+    return P(shape, lambda g: u(0.01, 0.3)(g, shape), [("zero", _const(shape, 0.0)), ("tiny", _const(shape, 1.0e-7))])
 
 
 def simplex(n):
@@ -146,7 +146,7 @@ NEWICK = {
     5: "(((A,B),(C,D)),E);",
     6: "((((A,B),C),(D,E)),F);",
 }
-NAMES = "ABCDEF"
+NAMES = "ABCDEFGHIJKLMNOP"
 SEQS = {
     "A": "ACGTACGGTCA",
     "B": "ACGTATGGTCC",
@@ -155,6 +155,28 @@ SEQS = {
     "E": "GCGTACTGTCA",
     "F": "ACGAACGGTTA",
 }
+
+
+def _more_taxa():
+    """taxa G..P with sequences in which neighbouring taxa differ at most sites (many changes per site pattern: the
+    partials of a short-branched sample become very small) and a balanced 16-taxon topology"""
+    import random as _r
+
+    rnd = _r.Random(20260927)
+    for nm in NAMES[6:]:
+        SEQS[nm] = "".join(rnd.choice("ACGT") for _ in range(11))
+
+    def bal(names):
+        if len(names) == 1:
+            return names[0]
+        h = len(names) // 2
+        return "(" + bal(names[:h]) + "," + bal(names[h:]) + ")"
+
+    for n in (8, 12, 16):
+        NEWICK[n] = bal(list(NAMES[:n])) + ";"
+
+
+_more_taxa()
 
 
 def dates_for(n, hetero):
@@ -351,7 +373,9 @@ def case_site(kind, what, cats=4, with_mu=False, with_inv=False):
 
 # ----------------------------------------------------------------------------- tree likelihood
 def case_tree_likelihood(n, subst, site, tree_kind, clock=None, cats=3, with_mu=False, with_inv=False,
-                         tip_states=False):
+                         tip_states=False, single=False, rescale=False):
+    """single: evaluated in the library's default precision (default dtype float32, float32 inputs);
+    rescale: the rescaled pruning pass is switched on before the first call (`like.rescale = True`)"""
     from torchtree.evolution.branch_model import SimpleClockModel, StrictClockModel
     from torchtree.evolution.tree_likelihood import TreeLikelihoodModel
 
@@ -360,7 +384,8 @@ def case_tree_likelihood(n, subst, site, tree_kind, clock=None, cats=3, with_mu=
     hetero = tree_kind != "unrooted"
     if tree_kind == "unrooted":
         params["blens"] = P((2 * n - 3,), lambda g: u(0.01, 0.4)(g, (2 * n - 3,)),
-                            [("zero", _const((2 * n - 3,), 0.0)), ("huge", _const((2 * n - 3,), 1.0e3))])
+                            [("zero", _const((2 * n - 3,), 0.0)), ("huge", _const((2 * n - 3,), 1.0e3)),
+                             ("tiny", _const((2 * n - 3,), 1.0e-6)), ("long", _const((2 * n - 3,), 5.0))])
     elif tree_kind == "time":
         params["heights"] = heights_param(n, hetero)
     else:
@@ -385,15 +410,34 @@ def case_tree_likelihood(n, subst, site, tree_kind, clock=None, cats=3, with_mu=
             cm = StrictClockModel("clock", Parameter("rate", v["clock"]), tree)
         elif clock == "simple":
             cm = SimpleClockModel("clock", Parameter("rate", v["clock"]), tree)
-        return TreeLikelihoodModel("like", sp, tree, mk_subst(subst, v), mk_site(site, v, cats), cm,
+        like = TreeLikelihoodModel("like", sp, tree, mk_subst(subst, v), mk_site(site, v, cats), cm,
                                    use_tip_states=tip_states)
+        if rescale:
+            like.rescale = True
+        return like
 
     tag = f"TreeLikelihood[{subst},{site}{'+inv' if with_inv and site == 'Weibull' else ''}" \
-          f"{'+mu' if with_mu else ''},{tree_kind}{',' + clock if clock else ''}{',tipstates' if tip_states else ''}]"
-    return Case(tag, params, None,
-                {"taxa-1": n - 1, "branches": 2 * n - 2, "categories": cats + (1 if with_inv else 0), "states": 4,
-                 "patterns": 11},
-                slow=True, mk=build)
+          f"{'+mu' if with_mu else ''},{tree_kind}{',' + clock if clock else ''}{',tipstates' if tip_states else ''}" \
+          f"{',n=' + str(n) if n > 6 else ''}{',float32' if single else ''}{',rescale' if rescale else ''}]"
+    mk = build
+    if single:
+        def mk(v):  # the object is built and evaluated under the library's default dtype
+            v32 = {k: (t.to(torch.float32) if t.dtype == torch.float64 else t) for k, t in v.items()}
+            old = torch.get_default_dtype()
+            torch.set_default_dtype(torch.float32)
+            try:
+                like = build(v32)
+                like()  # evaluate while float32 is the default (constants created inside the call)
+            finally:
+                torch.set_default_dtype(old)
+            return like
+    c = Case(tag, params, None,
+             {"taxa-1": n - 1, "branches": 2 * n - 2, "categories": cats + (1 if with_inv else 0), "states": 4,
+              "patterns": 11},
+             slow=True, mk=mk)
+    if single:
+        c.rtol = 2.0e-4
+    return c
 
 
 # ----------------------------------------------------------------------------- tree models / transforms
@@ -1144,4 +1188,20 @@ def likelihood_term_cases():
         for data_shape in ((), (3,), (2, 3)):
             for joint in (None, "alone", "prior"):
                 out.append(case_likelihood_term(family, data_shape, 4, joint))
+    return out
+
+
+def magnitude_contrast_cases():
+    """tree likelihoods on a 16-taxon tree with many changes per site, in single precision (the library default) and
+    in double, with and without the rescaled pass switched on beforehand: used with ONE sample of the batch holding
+    very short (or very long) branches / a tiny clock rate while the others are ordinary — the samples then differ by
+    tens of orders of magnitude in their partials, the plain pass underflows for one of them and the rescued /
+    rescaled pass must still treat every sample on its own."""
+    out = []
+    for single in (True, False):
+        for rescale in (False, True):
+            out.append(case_tree_likelihood(16, "JC69", "Constant", "unrooted", single=single, rescale=rescale))
+            out.append(case_tree_likelihood(16, "HKY", "Weibull", "time", "strict", cats=2, single=single, rescale=rescale))
+    out.append(case_tree_likelihood(16, "JC69", "Weibull", "time", "strict", cats=2, tip_states=True, single=True))
+    out.append(case_tree_likelihood(12, "GTR", "Constant", "unrooted", single=True, rescale=True))
     return out
